@@ -97,6 +97,7 @@ class SimTextIO(io.TextIOBase):
         self._lines = list(lines)
         self._pos = 0
         self.cursor: Optional[int] = None
+        self.on_cursor: Optional[Callable[[int], None]] = None
 
     def readable(self) -> bool:
         return True
@@ -108,6 +109,8 @@ class SimTextIO(io.TextIOBase):
         self._pos += 1
         if fidx is not None:
             self.cursor = fidx
+            if self.on_cursor is not None:
+                self.on_cursor(fidx)
         return text
 
 
@@ -372,22 +375,52 @@ def drive_agen(agen, on_item: Callable[[Any], None]) -> None:
 
 
 def feed_text(lines: Sequence[Tuple[str, Optional[int]]], kind: str, monitored: List[int],
-              tx_ids: List[int], padding: int = 0) -> EntryResult:
-    res = EntryResult(f"text-{kind}")
-    stream = SimTextIO(lines)
-    sm, bus = make_machine(kind, monitored, tx_ids, res, lambda: stream.cursor or 0, padding)
+              tx_ids: List[int], padding: int = 0, portions: int = 1,
+              head_direct: Optional[Tuple[Sequence[Tuple[int, bytes]], int]] = None) -> EntryResult:
+    """read_telegrams(TextIO).  `portions` > 1: the log arrives as several consecutive
+    streams (rotated log files, a capture that is resumed), each handed to a separate
+    read_telegrams() call of the SAME state machine.  `head_direct` = (frames, k): the first
+    k frames were already given to decode_rx_frame() by the caller before the log (starting
+    with frame k) is read."""
+    res = EntryResult(f"text-{kind}" + (f"-p{portions}" if portions > 1 else "") + ("-mixed" if head_direct else ""))
+    lines = list(lines)
+    cur = [0]
+    sm, bus = make_machine(kind, monitored, tx_ids, res, lambda: cur[0], padding)
     try:
         with quiet():
             try:
-                agen = sm.read_telegrams(stream)
-                drive_agen(agen, lambda item: res.reports.append(
-                    (stream.cursor or 0, item[0], bytes(item[1]))))
+                if head_direct is not None:
+                    frames, k = head_direct
+                    for j, (fid, data) in enumerate(frames[:k]):
+                        cur[0] = j
+                        for rid, payload in sm.decode_rx_frame(fid, bytes(data)):
+                            res.reports.append((j, rid, bytes(payload)))
+                    first = next((n for n, (_, fi) in enumerate(lines) if fi is not None and fi >= k), len(lines))
+                    lines = lines[first:]
+                portions = max(1, min(portions, max(1, len(lines))))
+                bounds = [len(lines) * j // portions for j in range(portions + 1)]
+                for a, b in zip(bounds, bounds[1:]):
+                    stream = SimTextIO(lines[a:b])
+
+                    def on_item(item, stream=stream) -> None:
+                        if stream.cursor is not None:
+                            cur[0] = stream.cursor
+                        res.reports.append((cur[0], item[0], bytes(item[1])))
+
+                    agen = sm.read_telegrams(stream)
+                    # the cursor of the active portion is what the bus stub of an active decoder stamps
+                    _track(stream, cur)
+                    drive_agen(agen, on_item)
             except Exception as e:  # noqa: BLE001
-                res.raised = (stream.cursor or 0, e)
+                res.raised = (cur[0], e)
     finally:
         shut(bus)
-    res.fed = sum(1 for _, f in lines if f is not None)
+    res.fed = sum(1 for _, f in lines if f is not None) + (head_direct[1] if head_direct else 0)
     return res
+
+
+def _track(stream: "SimTextIO", cur: List[int]) -> None:
+    stream.on_cursor = lambda c: cur.__setitem__(0, c)
 
 
 def feed_bus(frames: Sequence[Tuple[int, bytes]], kind: str, monitored: List[int], tx_ids: List[int],
